@@ -17,6 +17,7 @@ from __future__ import annotations
 
 import math
 import os
+import types
 import re
 from fractions import Fraction
 
@@ -55,7 +56,16 @@ def binding_error(exc):
     if isinstance(exc, TypeError) and _SIGNATURE_MISMATCH.search(str(exc)) and where.startswith(_VERIF_ROOT):
         # the call that does not fit was made by the harness (the callee's frame was never entered)
         return "the harness calls a function whose signature changed: %s" % exc
+    if isinstance(exc, AttributeError) and isinstance(getattr(exc, "name", None), str) and (
+            isinstance(getattr(exc, "obj", None), types.SimpleNamespace) or getattr(type(getattr(exc, "obj", None)), "__harness_standin__", False)):
+        # a stand-in object made by the harness (a configuration or result record with just the fields the code used to read; the
+        # package itself never makes such objects) lacks a field the code now reads: the harness does not fit the reorganised code
+        return "a stand-in object of the harness lacks the attribute %s that the code now reads" % exc.name
     if isinstance(exc, AttributeError) and isinstance(getattr(exc, "name", None), str) and exc.name.startswith("_") and not exc.name.startswith("__"):
+        if where.startswith(_VERIF_ROOT):
+            # the harness itself reached for a private member (a helper method it enters by, a field it pre-sets or inspects) that the
+            # class no longer has: the code was reorganised, the contract is not bound to it any more - nothing is known about the property
+            return "the harness refers to the private member %s, which no longer exists" % exc.name
         obj = getattr(exc, "obj", None)
         if obj is not None and not isinstance(obj, type) and getattr(obj, "__dict__", None) is not None:
             # a private attribute missing on an instance: a harness artefact iff the class (or a base) assigns it somewhere,
